@@ -53,6 +53,8 @@ class TemporalSystem:
         st.mod = inferno.Module()
         if self.storage == "zeros":
             val = torch.zeros(self.shape)
+        elif self.storage.startswith("zeros:"):  # initialised storage of another dtype: resizing keeps the dtype
+            val = torch.zeros(self.shape, dtype={"int64": torch.int64, "bool": torch.bool, "float64": torch.float64, "float16": torch.float16}[self.storage.split(":")[1]])
         elif self.storage == "param":
             val = nn.Parameter(torch.zeros(self.shape), requires_grad=False)
         elif self.storage == "none":
@@ -66,7 +68,8 @@ class TemporalSystem:
         RecordTensor.create(st.mod, "rec", self.dt0, self.dur0, val, inclusive=self.inc0)
         st.rt = st.mod.rec
         st.dt, st.dur, st.inc = self.dt0, self.dur0, self.inc0
-        st.init = self.storage in ("zeros", "param")
+        st.init = self.storage in ("zeros", "param") or self.storage.startswith("zeros:")
+        st.dtype = None if not st.init else st.rt.value.dtype
         N = size_formula(st.dt, st.dur, st.inc)
         st.hist = [[0.0] * self.E for _ in range(N)] if st.init else None
         st.step = 0
@@ -117,8 +120,10 @@ class TemporalSystem:
         if name == "push":
             st.step += 1
             vals = [float(100 * st.step + e) for e in range(self.E)]
+            if self.storage == "zeros:bool":
+                vals = [float((st.step + e) % 2 == 1 or st.step % 3 == 0) for e in range(self.E)]
             try:
-                rt.push(torch.tensor(vals).reshape(self.shape))
+                rt.push(torch.tensor(vals).reshape(self.shape).to(st.dtype if getattr(st, "dtype", None) is not None else torch.float32))
             except Exception as ex:
                 if not check:
                     raise
@@ -161,10 +166,12 @@ class TemporalSystem:
             val = rt.value
             if rt.ignored:
                 bad.append((f"state:{name}:deinitialised", f"after {op} storage is ignored", None, None))
+            elif st.dtype is not None and val.dtype != st.dtype:
+                bad.append((f"storage-dtype:{name}", f"after {op} the storage dtype is {val.dtype}, it was {st.dtype}", str(st.dtype), str(val.dtype)))
             elif val.shape[0] != Nnow or tuple(val.shape[1:]) != self.shape:
                 bad.append((f"storage-shape:{name}", f"after {op} storage shape {tuple(val.shape)}", [Nnow, *self.shape], list(val.shape)))
             else:
-                got = [rt.read(k).reshape(-1).tolist() for k in range(1, Nnow + 1)]
+                got = [[float(v) for v in rt.read(k).reshape(-1).tolist()] for k in range(1, Nnow + 1)]
                 if got != st.hist:
                     keep = min(Nold, Nnow)
                     where = "kept" if got[:keep] != st.hist[:keep] else "fill"
@@ -189,7 +196,7 @@ def temporal_shard(storage, shape, dt0, dur0, inc0, dts, durs, depth):
     sysm = TemporalSystem(storage, shape, dt0, dur0, inc0, dts, durs)
     N0 = size_formula(dt0, dur0, inc0)
     initial = [()]
-    if storage in ("zeros", "param"):
+    if storage in ("zeros", "param") or storage.startswith("zeros:"):
         # every pointer position x fill level: k pushes (pointer k mod N, fill min(k,N))
         initial = [tuple([("push",)] * k) for k in range(0, 2 * N0 + 1)]
 
@@ -198,7 +205,7 @@ def temporal_shard(storage, shape, dt0, dur0, inc0, dts, durs, depth):
             return (storage, st.init, op, size_formula(st.dt, st.dur, st.inc), st.rt.pointer)
         return None
 
-    explore(sysm, tally, max_depth=depth + 2 * N0 if storage in ("zeros", "param") else depth, initial=initial,
+    explore(sysm, tally, max_depth=depth + 2 * N0 if (storage in ("zeros", "param") or storage.startswith("zeros:")) else depth, initial=initial,
             nontrivial=nontrivial)
     return tally
 
@@ -495,6 +502,9 @@ def run(rep):
             if storage in ("param", "uninitparam", "empty0", "uninitbuf") and (dt0, dur0, inc0) not in starts[:2] and quick:
                 continue
             jobs.append((temporal_shard, (storage, shape, dt0, dur0, inc0, dts, durs, depth)))
+    # initialised storage of other dtypes (spike records are boolean, counters integer): a resize keeps the dtype
+    for storage in ("zeros:int64", "zeros:bool", "zeros:float64", "zeros:float16"):
+        jobs.append((temporal_shard, (storage, (2,), 1.0, 1.0, True, dts, durs, depth - 1)))
     cdepth = 4 if quick else 5
     for kind in ("shaped", "record", "shaped-none"):
         for strict in (True, False):
